@@ -42,7 +42,8 @@ PLACEMENTS = [
     ("{}; y = 2\n", "y = 2\n"),
     ("{}\ny = [2,\n 3]\n", "y = [2,\n 3]\n"),
 ]
-LINES = ["x = 1", "    y", "", "# c", "ls -l | grep $X", "if a:", "        z", "s = '''t", "u'''", "(", ")", "  w  ", "a, b", "\tq"]
+LINES = ["x = 1", "    y", "", "# c", "ls -l | grep $X", "if a:", "        z", "s = '''t", "u'''", "(", ")", "  w  ", "a, b", "\tq", "f = f'''t {a}",
+         "mid {b} x"]
 AFTER = ["", "y = 2\n", "if z:\n    pass\n"]
 
 
@@ -77,6 +78,12 @@ def cases(unit: tuple) -> Iterator[dict]:
             for tmpl, after in (PLACEMENTS if short else PLACEMENTS[:1] + PLACEMENTS[4:5]):
                 yield {"kind": "call", "src": tmpl.format(m), "macro": m, "after": after}
     elif k == "proc":
+        if unit[1] == 0:  # the empty macro (nothing / blanks after the bang), alone and followed by code
+            for op, cl in (("$(", ")"), ("$[", "]"), ("!(", ")"), ("![", "]")):
+                for raw in ("", " ", "  "):
+                    yield {"kind": "proc", "src": f"{op}cmd!{raw}{cl}\n", "op": op, "raw": raw, "empty": True}
+                    yield {"kind": "proc", "src": f"r = {op}cmd!{raw}{cl}; y = [1, 2]\n", "op": op, "raw": raw, "empty": True, "after": "y = [1, 2]\n"}
+                    yield {"kind": "proc", "src": f"{op}cmd!{raw}{cl}\ny = [1, 2]\n", "op": op, "raw": raw, "empty": True, "after": "y = [1, 2]\n"}
         for text in _seqs(unit[1], unit[2]):
             for op, cl in (("$(", ")"), ("![", "]")) if len(text) > 6 else (("$(", ")"), ("$[", "]"), ("!(", ")"), ("![", "]")):
                 yield {"kind": "proc", "src": f"{op}cmd! {text}{cl}\n", "op": op, "raw": " " + text}
@@ -188,7 +195,9 @@ def _check_call(case: dict, acc: Any) -> None:
 def _check_proc(case: dict, acc: Any) -> None:
     src, raw = case["src"], case["raw"]
     body = raw.strip()
-    if not body or body[0] in "([=":
+    if case.get("empty"):
+        body = ""
+    elif not body or body[0] in "([=":
         acc.count("outside:digraph-or-empty")
         return
     if not macrosplit.balanced(raw) or "#" in raw or "\n" in raw:
